@@ -56,6 +56,10 @@ pub fn replay_other(kind: &str, fr: &crate::runner::FailRec, dir: &std::path::Pa
         "c14" => c14::replay(fr, dir),
         "c15" => c15::replay(fr, dir),
         "c16" => c16::replay(fr, dir),
+        "c06-errdiff" => match serde_json::from_value::<c06::ErrDiffCase>(fr.case.clone()) {
+            Ok(c) => c06::run_err_diff(&c, dir).0.err(),
+            Err(e) => Some(crate::interp::Failure::new("harness_panic", format!("bad case: {}", e))),
+        },
         _ => Some(crate::interp::Failure::new("harness_panic", format!("unknown case kind {}", kind))),
     }
 }
